@@ -43,12 +43,12 @@ impl Scenario for C13S {
         // 5 shapes x 2 attachment modes x 2 buffer sizes x 1024 ENOBUFS patterns (x schedules)
         let base = 5 * 2 * 2 * 1024;
         match tier {
-            Tier::Quick => base,
-            Tier::Thorough => base * 24,
+            Tier::Quick => base * 4,
+            Tier::Thorough => base * 160,
         }
     }
     fn rule(&self) -> &'static str {
-        "exhaustive enumeration: case i = (ENOBUFS pattern = every subset of the first 10 transmission attempts of one send) x (shape: <=2000 B one packet, >2000 B one packet, 2, 3, 6 packets) x (no attachments | 2 senders + 1 region) x (SO_SNDBUF request 2304 | 8192); thorough repeats the whole enumeration under 24 different seeded receiver/sender schedules; non-trivial = at least one refusal actually fired inside the send under test; distinct = distinct (pattern, shape, attachments, buffer, schedule hash)"
+        "exhaustive enumeration: case i = (ENOBUFS pattern = every subset of the first 10 transmission attempts of one send) x (shape: <=2000 B one packet, >2000 B one packet, 2, 3, 6 packets) x (no attachments | 2 senders + 1 region) x (SO_SNDBUF request 2304 | 8192); quick runs the whole enumeration under 4, thorough under 160 different seeded receiver/sender schedules; non-trivial = at least one refusal actually fired inside the send under test; distinct = distinct (pattern, shape, attachments, buffer, schedule hash)"
     }
     fn gen(&self, seed: u64, idx: u64, _tier: Tier, _variant: &str) -> Value {
         let base = 5 * 2 * 2 * 1024u64;
